@@ -36,7 +36,7 @@ def main():
             result["checks"][i] = {"verdict": verdict, "wall_s": round(time.time() - t0, 1), "first": (sig[0][:300] if sig else (lines[0][:300] if lines else ""))}
             print("%s: %s %s" % (i, verdict, (sig[0][:220] if sig else (lines[0][:220] if lines else ""))))
     finally:
-        sh("git -C %s checkout -- . && git -C %s clean -fdq -- src" % (REPO, REPO))
+        sh("git -C %s checkout -- . && git -C %s clean -fdq -- src tests" % (REPO, REPO))
         # evidence files were rewritten by runs on a modified tree: they are regenerated below
     print(json.dumps(result))
     out = os.environ.get("SEEDTEST_OUT")
